@@ -106,7 +106,13 @@ class World:
                         flags["action"] = False
                         raise FAULTS[flags.get("exc", "Boom")]("action")
                     flags["action"] -= 1
-                return (name, tuple(nodes))
+                # user state kept in context.extra lives for one parse (one forest) only
+                ex = getattr(context, "extra", None)
+                seen = None
+                if isinstance(ex, dict):
+                    seen = ex.get("seen", 0)
+                    ex["seen"] = seen + 1
+                return (name, tuple(nodes), seen)
 
             return act
 
